@@ -174,6 +174,136 @@ theorem discretize_cfg (par : Parent ℝ) (s s' : DD ℝ) (h : discretize par s 
             exact ⟨rfl, rfl, rfl, rfl, rfl⟩
           · injection h with h; subst h; exact ⟨rfl, rfl, rfl, rfl, rfl⟩
 
+/-! ## the bounds lie in the domain, for every parent -/
+
+theorem grid_mem (lo hi : ℝ) (n k : ℕ) (hl : lo ≤ hi) (hn : 1 ≤ n) (hk : k ≤ n) :
+    lo ≤ lo + (k : ℝ) * ((hi - lo) / (n : ℝ)) ∧ lo + (k : ℝ) * ((hi - lo) / (n : ℝ)) ≤ hi := by
+  have hn' : (0 : ℝ) < n := by exact_mod_cast hn
+  have hk' : (k : ℝ) ≤ n := by exact_mod_cast hk
+  have hw : 0 ≤ (hi - lo) / (n : ℝ) := div_nonneg (by linarith) hn'.le
+  have hk0 : (0 : ℝ) ≤ k := by positivity
+  constructor
+  · nlinarith
+  · have : (k : ℝ) * ((hi - lo) / (n : ℝ)) ≤ (n : ℝ) * ((hi - lo) / (n : ℝ)) := by nlinarith
+    have e : (n : ℝ) * ((hi - lo) / (n : ℝ)) = hi - lo := by field_simp
+    linarith
+
+theorem eqPropRaw_bounds_mem (par : Parent ℝ) (s : DD ℝ) (hn : 1 ≤ s.n) (hl : s.dom.lo ≤ s.dom.hi) :
+    ∀ b ∈ (eqPropRaw par s).1, s.dom.lo ≤ b ∧ b ≤ s.dom.hi := by
+  unfold eqPropRaw
+  simp only
+  split
+  · have hb : ∀ b ∈ eqPropBounds par s.n s.dom.lo s.dom.hi (par.P s.dom.lo) ((par.P s.dom.hi - par.P s.dom.lo) / nat s.n),
+        s.dom.lo ≤ b ∧ b ≤ s.dom.hi := by
+      intro b hb
+      simp only [eqPropBounds, List.mem_map] at hb
+      obtain ⟨i, _, rfl⟩ := hb
+      exact insideDomain_mem _ _ _ hl
+    split <;> exact hb
+  · intro b hb
+    simp only [uniformBounds, List.mem_map, List.mem_range] at hb
+    obtain ⟨i, hi, rfl⟩ := hb
+    have := grid_mem s.dom.lo s.dom.hi s.n (i + 1) hl hn (by omega)
+    simpa [nat_eq] using this
+
+theorem eqInt_bounds_mem (par : Parent ℝ) (s r : DD ℝ) (hn : 1 ≤ s.n) (hl : s.dom.lo ≤ s.dom.hi) (h : eqInt par s = .ok r) :
+    ∀ b ∈ r.bounds, s.dom.lo ≤ b ∧ b ≤ s.dom.hi := by
+  obtain ⟨m, _, rfl⟩ := eqInt_ok par s r h
+  intro b hb
+  simp only [List.mem_map, List.mem_range] at hb
+  obtain ⟨i, hi, rfl⟩ := hb
+  have := grid_mem s.dom.lo s.dom.hi s.n (i + 1) hl hn (by omega)
+  simpa [nat_eq, ScalarReal.one_eq] using this
+
+/-- after `discretize()` — any scheme, any parent — the domain is what it was and every interior
+bound lies in it -/
+theorem discretize_bounds_in_dom (par : Parent ℝ) (s s' : DD ℝ) (hn : 1 ≤ s.n) (hl : s.dom.lo ≤ s.dom.hi)
+    (h : discretize par s = .ok s') : boundsInDom s' = true := by
+  have hmem : ∀ b ∈ s'.bounds, s.dom.lo ≤ b ∧ b ≤ s.dom.hi ∧ s'.dom = s.dom := by
+    unfold discretize at h
+    split at h
+    · simp at h
+    · split at h
+      · obtain ⟨m, _, rfl⟩ := eqProp_ok par s s' h
+        intro b hb; exact ⟨(eqPropRaw_bounds_mem par s hn hl b hb).1, (eqPropRaw_bounds_mem par s hn hl b hb).2, rfl⟩
+      · split at h
+        · have hd : s'.dom = s.dom := by obtain ⟨m, _, rfl⟩ := eqInt_ok par s s' h; rfl
+          intro b hb; exact ⟨(eqInt_bounds_mem par s s' hn hl h b hb).1, (eqInt_bounds_mem par s s' hn hl h b hb).2, hd⟩
+        · cases he : eqProp par s with
+          | error e => simp [he, bind, Except.bind] at h
+          | ok s1 =>
+            obtain ⟨m, _, hs1⟩ := eqProp_ok par s s1 he
+            simp only [he, bind, Except.bind] at h
+            have e1 : s1.n = s.n := by rw [hs1]
+            have e2 : s1.dom = s.dom := by rw [hs1]
+            split at h
+            · have hd : s'.dom = s1.dom := by obtain ⟨m2, _, rfl⟩ := eqInt_ok par s1 s' h; rfl
+              intro b hb
+              have := eqInt_bounds_mem par s1 s' (by rw [e1]; exact hn) (by rw [e2]; exact hl) h b hb
+              rw [e2] at this
+              exact ⟨this.1, this.2, by rw [hd, e2]⟩
+            · injection h with h; subst h
+              intro b hb
+              rw [hs1] at hb
+              exact ⟨(eqPropRaw_bounds_mem par s hn hl b hb).1, (eqPropRaw_bounds_mem par s hn hl b hb).2, e2⟩
+  have hd : s'.dom = s.dom := (discretize_cfg par s s' h).2.1
+  simp only [boundsInDom, Bool.and_eq_true, ScalarReal.leb_iff, List.all_eq_true, hd]
+  exact ⟨hl, fun b hb => ⟨(hmem b hb).1, (hmem b hb).2.1⟩⟩
+
+/-! ## a parameter update of gamma / beta / gaussian keeps the domain ordered -/
+
+theorem famDiscretize_pre (oracle : Parent ℝ) (g f' : FamSt ℝ) (hg : Pre g.dd) (h : g.discretize oracle = .ok f') :
+    Pre f'.dd ∧ boundsInDom f'.dd = true := by
+  unfold FamSt.discretize at h
+  cases hd : Discretize.discretize (g.parent oracle) g.dd with
+  | error e => simp [hd, bind, Except.bind] at h
+  | ok d =>
+    simp only [hd, bind, Except.bind, pure, Except.pure] at h
+    injection h with h; subst h
+    obtain ⟨e5, e6, e7, _, _⟩ := discretize_cfg _ _ _ hd
+    exact ⟨⟨by simp only; rw [e5]; exact hg.n_pos, by simp only; rw [e7]; exact hg.prec_nonneg, by simp only; rw [e6]; exact hg.dom_ordered⟩,
+      discretize_bounds_in_dom _ _ _ hg.n_pos hg.dom_ordered hd⟩
+
+/-- `fireParameterChanged` of the gamma (with or without offset), beta and gaussian families
+(repaired: audit F1) never leaves an inverted domain: whatever the slot and the value, when it
+returns the domain is ordered and contains every interior bound; when it raises (offset refused)
+the state is unchanged -/
+theorem fire_pre (oracle : Parent ℝ) (f f' : FamSt ℝ) (slot : Nat) (v : ℝ)
+    (hfam : f.fam = .gamma ∨ f.fam = .beta ∨ f.fam = .gauss) (hpre : Pre f.dd) (h : fire oracle f slot v = .ok f') :
+    Pre f'.dd ∧ boundsInDom f'.dd = true := by
+  unfold fire at h
+  rcases hfam with hf | hf | hf
+  · -- gamma
+    simp only [hf] at h
+    have hdd : (setShape f slot v).dd = f.dd := by unfold setShape; split <;> [rfl; (split <;> rfl)]
+    by_cases hc : (f.hasOffset && slot == 3 && !Scalar.eqb f.p3 v) = true
+    · rw [if_pos hc] at h
+      by_cases hr : (!Scalar.ltb v (setShape f slot v).dd.dom.hi) = true
+      · rw [if_pos hr] at h; cases h
+      · rw [if_neg hr] at h
+        have hv : v < f.dd.dom.hi := by rw [hdd] at hr; simpa using hr
+        refine famDiscretize_pre oracle _ f' ?_ h
+        refine ⟨by simp only [hdd]; exact hpre.n_pos, by simp only [hdd]; exact hpre.prec_nonneg, ?_⟩
+        simp only [hdd]
+        split
+        · simp only [Dom.setLowerBound]; exact hv.le
+        · exact hpre.dom_ordered
+    · rw [if_neg hc] at h
+      exact famDiscretize_pre oracle _ f' (by rw [hdd]; exact hpre) h
+  · -- beta
+    simp only [hf] at h
+    refine famDiscretize_pre oracle _ f' ?_ h
+    have hlo := hpre.dom_ordered
+    refine ⟨?_, ?_, ?_⟩
+    · split <;> exact hpre.n_pos
+    · split <;> exact hpre.prec_nonneg
+    · simp only
+      split_ifs <;> simp_all [Dom.setLowerBound, Dom.setUpperBound, ScalarReal.leb_iff, ScalarReal.one_eq]
+  · -- gaussian
+    simp only [hf] at h
+    refine famDiscretize_pre oracle _ f' ?_ h
+    split <;> exact hpre
+
 /-- family, parameters and flags are untouched; the domain as stated -/
 def SameParams (f g : FamSt ℝ) : Prop :=
   g.fam = f.fam ∧ g.p1 = f.p1 ∧ g.p2 = f.p2 ∧ g.p3 = f.p3 ∧ g.hasOffset = f.hasOffset
